@@ -11,6 +11,7 @@ import (
 	"github.com/99designs/gqlgen/plugin/stubgen"
 
 	"verifharness/engines/c01"
+	"verifharness/engines/c04"
 	"verifharness/engines/c08"
 	"verifharness/engines/c10"
 	"verifharness/engines/c14"
@@ -21,6 +22,7 @@ import (
 
 var engines = map[string]func(*gen.Ctx) error{
 	"c01": c01.Run,
+	"c04": c04.Run,
 	"c03": pipe.RunAs("C03"),
 	"c07": pipe.RunAs("C07"),
 	"c09": pipe.RunAs("C09"),
